@@ -62,7 +62,7 @@ func build(kind string) *env {
 		core = zapcore.NewCore(enc(), zapcore.Lock(newSink()), zap.DebugLevel)
 	case "combine":
 		core = zapcore.NewCore(enc(), zap.CombineWriteSyncers(newSink(), newSink()), zap.DebugLevel)
-	case "lockreflect", "lockconsole", "lockfault", "lockconsolens":
+	case "lockreflect", "lockconsole", "lockfault", "lockconsolens", "locklazy":
 		core = zapcore.NewCore(enc(), zapcore.Lock(newSink()), zap.DebugLevel)
 	case "combine1": // a single destination must be serialised just like several
 		core = zapcore.NewCore(enc(), zap.CombineWriteSyncers(newSink()), zap.DebugLevel)
@@ -220,6 +220,9 @@ func withBase(kind string, l *zap.Logger) *zap.Logger {
 	if kind == "lockreflect" {
 		return l.With(zap.Reflect("svc", yv{"base"}))
 	}
+	if kind == "locklazy" { // a fresh WithLazy child shared by the threads: its first uses overlap (building the context yields)
+		return l.WithLazy(zap.Reflect("svc", yv{"lazy-base"}), zap.Int("c", 1))
+	}
 	if kind == "lockconsolens" { // a shared console logger whose context leaves a namespace open
 		return l.With(zap.Namespace("ns"), zap.Int("c", 1))
 	}
@@ -357,7 +360,7 @@ func main() {
 	progs := []string{"I", "B", "S", "C", "W", "II", "IB", "BI", "SW", "CW", "WI"}
 	singles := []string{"I", "B", "W", "C"}
 	var items []string
-	for _, kind := range []string{"lock", "combine", "combine1", "open", "open1", "buffered", "tee", "teebuf", "lockreflect", "lockconsole", "lockfault", "teefail", "teefailmid", "combinefail", "lockconsolens"} {
+	for _, kind := range []string{"lock", "combine", "combine1", "open", "open1", "buffered", "tee", "teebuf", "lockreflect", "lockconsole", "lockfault", "teefail", "teefailmid", "combinefail", "lockconsolens", "locklazy"} {
 		if kind == "lockfault" {
 			for _, pq := range []string{"I;I", "I;B", "I;W", "W;S", "I;I;I", "I;W;C"} {
 				items = append(items, fmt.Sprintf("c04|%s|%d|%s", kind, pre, pq))
@@ -366,6 +369,12 @@ func main() {
 		}
 		if kind == "teefail" || kind == "teefailmid" || kind == "combinefail" {
 			for _, pq := range []string{"I;I", "I;B", "I;W", "W;S", "I;C", "II;I", "I;I;I"} {
+				items = append(items, fmt.Sprintf("c04|%s|%d|%s", kind, pre, pq))
+			}
+			continue
+		}
+		if kind == "locklazy" {
+			for _, pq := range []string{"I;I", "I;W", "I;C", "I;S", "II;I", "I;I;I", "I;W;C"} {
 				items = append(items, fmt.Sprintf("c04|%s|%d|%s", kind, pre, pq))
 			}
 			continue
